@@ -13,10 +13,6 @@ open Scrut.LineParser
 
 /-! ## bytes -/
 
-def byteLen : Line → Nat
-  | [] => 0
-  | c :: r => c.utf8Size + byteLen r
-
 theorem byteLen_append (a b : Line) : byteLen (a ++ b) = byteLen a + byteLen b := by
   induction a with
   | nil => simp [byteLen]
@@ -51,9 +47,9 @@ theorem sliceFrom_append (p r : Line) : sliceFrom (p ++ r) (byteLen p) = .ok r :
 
 /-- after the language started: `pre` = the backticks, `mid` = the language so far -/
 def scanSomePure (pre : Line) : Line → Line → Option (Line × Line × Line)
-  | mid, [] => some (pre, mid, [])
+  | mid, [] => some (pre, trim mid, [])
   | mid, ch :: rest =>
-    if ch = '{' then some (pre, trimEnd mid, ch :: rest) else scanSomePure pre (mid ++ [ch]) rest
+    if ch = '{' then some (pre, trim mid, trimEnd (ch :: rest)) else scanSomePure pre (mid ++ [ch]) rest
 
 /-- still in the backticks `pre` -/
 def scanNonePure : Line → Line → Option (Line × Line × Line)
@@ -63,7 +59,7 @@ def scanNonePure : Line → Line → Option (Line × Line × Line)
     else scanNonePure (pre ++ [ch]) rest
 
 def fencePure (line : Line) : Option (Line × Line × Line) :=
-  if line = backticks3 then some (line, [], []) else scanNonePure [] line
+  if isBareFence line then some (line, [], []) else scanNonePure [] line
 
 theorem scanFence_some (line pre : Line) :
     ∀ (rem mid : Line), line = pre ++ mid ++ rem →
